@@ -16,14 +16,6 @@ Local Open Scope N_scope.
 
 Definition max_list (l : list N) : N := fold_right N.max 0 l.
 
-(* the constant of the allocation bound: one read chunk; for the map decoder
-   also the capped pre-allocation of 65536 entries *)
-Definition kind_const (k : kind) : N :=
-  match k with
-  | KMap | KState => CHUNK + MAP_PREALLOC * ENTRY
-  | _ => CHUNK
-  end.
-
 (* A request in the model is a needed capacity. The containers round it up:
    Vec doubles (Base/Bytes.v vec_grow_le), hashbrown allocates
    next_power_of_two(8/7 n) buckets of ENTRY + 1 bytes.  Both stay below
